@@ -579,6 +579,131 @@ Proof.
   destruct (m _) as [[a2 s2]| | |]; try discriminate. intros H. inversion H; subst. eexists. split; reflexivity.
 Qed.
 
+(* ------------------------------------------------------------------ the `#!` line of parse_internal: the first Eol() of the loop
+   `while (m_position.has_more() && !Eol()) ++m_position`, entered on the `#` at the start of the buffer, skips exactly that annotation line
+   (SkipWS_annotation) and then sees the line end -- which Eol_ consumes (fine_Eol_complete: Eol_ never refuses a line end) -- or the end of
+   the input; it never sees `;` nor a byte the loop would step over with `++` *)
+Section ShebangScanners.
+  Context {U : Type}.
+  Variable A : alphabets.
+  Local Notation STu := (state U).
+  Hypothesis white_ok : forall c, in_alpha (a_white A) c = true -> c = 32%N \/ c = 9%N.
+
+  Lemma Symbol_nomatch sym (s : STu) :
+    wf_pos (pos s) -> has_more (pos s) = true -> 0 < List.length sym -> deref (pos s) <> nth 0 sym 0%N ->
+    post (Symbol_ sym s) (fun b s' => b = false /\ s' = s).
+  Proof.
+    intros W Hm Hl Hd. eapply post_mono; [apply (fine_Symbol_ (U:=U) sym), W|]. intros b s' [_ R]. destruct b; [|auto].
+    exfalso. destruct R as (_ & Rb). specialize (Rb 0 Hl). rewrite Nat.add_0_r, <- (deref_nth _ Hm) in Rb. contradiction.
+  Qed.
+
+  Lemma SkipComment_none (s : STu) :
+    wf_pos (pos s) -> has_more (pos s) = true -> deref (pos s) <> 47%N -> deref (pos s) <> 35%N ->
+    post (SkipComment s) (fun b s' => b = false /\ s' = s).
+  Proof.
+    intros W Hm N1 N2. unfold SkipComment.
+    apply post_bind. eapply post_mono; [apply (Symbol_nomatch s_ml_begin s W Hm); [simpl; lia|exact N1]|]. intros b s' [-> ->]. cbv iota.
+    apply post_bind. eapply post_mono; [apply (Symbol_nomatch s_sl_comment s W Hm); [simpl; lia|exact N1]|]. intros b s' [-> ->]. cbv iota.
+    apply post_bind. eapply post_mono; [apply (Symbol_nomatch s_annotation s W Hm); [simpl; lia|exact N2]|]. intros b s' [-> ->]. cbv iota.
+    apply post_ret. auto.
+  Qed.
+
+  Lemma SkipComment_annotation (s : STu) :
+    wf_pos (pos s) -> tstate_at (pos s) = TS_normal -> has_more (pos s) = true -> deref (pos s) = 35%N ->
+    post (SkipComment s) (fun b s' => b = true /\ ext s s' /\ idx (pos s) < idx (pos s') /\ tstate_at (pos s') = TS_line /\ line_end_next (pos s')).
+  Proof.
+    intros W Tn Hm D. pose proof (ext_refl s W) as E. unfold SkipComment.
+    assert (N1 : deref (pos s) <> 47%N) by (rewrite D; discriminate).
+    apply post_bind. eapply post_mono; [apply (Symbol_nomatch s_ml_begin s W Hm); [simpl; lia|exact N1]|]. intros b s' [-> ->]. cbv iota.
+    apply post_bind. eapply post_mono; [apply (Symbol_nomatch s_sl_comment s W Hm); [simpl; lia|exact N1]|]. intros b s' [-> ->]. cbv iota.
+    step (fine_Symbol_full (U:=U) s_annotation). destruct a.
+    - destruct R as ((Rp & Ri) & Rb). cbn [List.length s_annotation] in *.
+      assert (T0 : tstate_at (pos s0) = TS_line). { rewrite Rp. cbn [pos_add]. rewrite (tstate_inc _ Hm), Tn, D. reflexivity. }
+      apply post_bind. eapply post_mono; [apply line_comment_tb; [eapply ext_wf; eassumption|exact T0]|].
+      intros [] s2 (Ex2 & T2 & L2). apply post_ret. split; [reflexivity|]. split; [eapply ext_trans; eauto|].
+      split; [pose proof (ext_idx _ _ Ex2); lia|auto].
+    - exfalso. destruct R as [_ Rn]. apply Rn. split; [apply has_more_lt in Hm; simpl; lia|]. intros j Hj. cbn [List.length s_annotation] in Hj.
+      assert (j = 0) by lia. subst j. rewrite Nat.add_0_r, <- (deref_nth _ Hm). exact D.
+  Qed.
+
+  Lemma SkipWS_annotation (s : STu) :
+    wf_pos (pos s) -> tstate_at (pos s) = TS_normal -> has_more (pos s) = true -> deref (pos s) = 35%N ->
+    post (SkipWS A false s) (fun _ s' => ext s s' /\ tstate_at (pos s') = TS_line /\ line_end_next (pos s')).
+  Proof.
+    intros W Tn Hm D. unfold SkipWS.
+    apply (loop_ok2 (skipws_body A false)
+             (fun _ sx => ext s sx /\ (idx (pos sx) = idx (pos s) \/ (tstate_at (pos sx) = TS_line /\ line_end_next (pos sx))))
+             (fun _ sx => ext s sx /\ tstate_at (pos sx) = TS_line /\ line_end_next (pos sx))); [|split; [apply ext_refl, W|left; reflexivity]].
+    intros retval sx [E0 Inv]. pose proof (ext_wf _ _ E0) as Wx. pose proof (ext_refl sx Wx) as E. unfold skipws_body. step_pos.
+    destruct Inv as [Ix|[Tl Le]].
+    - destruct (same_place (pos s) (pos sx) (ext_buf _ _ E0) Ix) as (H1 & H2 & _ & _).
+      assert (Hmx : has_more (pos sx) = true) by congruence. assert (Dx : deref (pos sx) = 35%N) by congruence.
+      assert (Tx : tstate_at (pos sx) = TS_normal) by (rewrite (tstate_at_ext (pos s) (pos sx) (ext_buf _ _ E0) Ix); exact Tn).
+      rewrite Hmx. cbv zeta. rewrite Dx.
+      change (126 <? 35)%N with false. cbv iota.
+      assert (Wh : in_alpha (a_white A) 35%N = false). { destruct (in_alpha (a_white A) 35%N) eqn:Wh; [|reflexivity]. destruct (white_ok _ Wh); discriminate. }
+      rewrite Wh. cbn [orb andb].
+      apply post_bind. eapply post_mono; [apply (SkipComment_annotation sx Wx Tx Hmx Dx)|]. intros b s1 (-> & E1 & P1 & T1 & L1).
+      apply post_ret. cbn [fst snd]. split; [apply (ext_buf _ _ E1)|]. split; [|discriminate]. intros _.
+      split; [split; [eapply ext_trans; eauto|right; auto]|]. split; [exact P1|apply (ext_len _ _ E1)].
+    - destruct (has_more (pos sx)) eqn:Hmx.
+      2:{ apply post_ret. cbn [fst snd]. split; [reflexivity|]. split; [discriminate|]. intros _. auto. }
+      assert (Dc : deref (pos sx) = NL \/ deref (pos sx) = CR). { destruct Le as [H|[H|(_ & H & _)]]; [congruence|auto|auto]. }
+      cbv zeta. set (c := deref (pos sx)) in *.
+      assert (H126 : (126 <? c)%N = false) by (destruct Dc as [-> | ->]; reflexivity).
+      assert (Wh : in_alpha (a_white A) c = false).
+      { destruct (in_alpha (a_white A) c) eqn:Wh; [|reflexivity]. destruct (white_ok _ Wh) as [Hc|Hc]; destruct Dc as [Hd|Hd]; rewrite Hd in Hc; discriminate. }
+      rewrite H126, Wh. cbn [orb andb].
+      apply post_bind. eapply post_mono; [apply (SkipComment_none sx Wx Hmx); fold c; destruct Dc as [-> | ->]; discriminate|].
+      intros b s1 [-> ->]. apply post_ret. cbn [fst snd]. split; [reflexivity|]. split; [discriminate|]. intros _. auto.
+  Qed.
+
+  Lemma Eol__false_not_line_end t_eos (s s' : STu) :
+    wf_pos (pos s) -> Eol_ t_eos s = Ok (false, s') -> line_end_next (pos s) -> has_more (pos s) = false.
+  Proof.
+    intros W E L. destruct (has_more (pos s)) eqn:Hm; [exfalso|reflexivity].
+    unfold Eol_ in E. apply bind_ok_inv in E. destruct E as (p & sa & Ea & E). cbv [get_pos] in Ea. inversion Ea; subst. clear Ea.
+    apply bind_ok_inv in E. destruct E as (b & s1 & E1 & E2). destruct b.
+    { cbv [bind set_col ret] in E2. discriminate. }
+    clear E2. rewrite Hm in E1. apply bind_ok_inv in E1. destruct E1 as (b1 & s2 & E1 & E3). destruct b1; [discriminate|].
+    pose proof (fine_Symbol_full (U:=U) s_cr_lf sa W) as F1. rewrite E1 in F1. destruct F1 as [_ [-> Rn]].
+    pose proof (fine_Char_full (U:=U) NL sa W) as F2. rewrite E3 in F2. destruct F2 as [_ [_ Rc]]. rewrite Hm in Rc. cbn [andb] in Rc. apply N.eqb_neq in Rc.
+    destruct L as [H|[H|(_ & Hc & Hm1 & Hn)]]; [congruence|contradiction|].
+    apply Rn. cbn [List.length s_cr_lf]. apply has_more_lt in Hm1. rewrite pos_inc_buf, pos_inc_idx, Hm in Hm1. split; [lia|].
+    intros j Hj. destruct j as [|[|j]]; [| |lia]; cbn [nth s_cr_lf].
+    - rewrite Nat.add_0_r, <- (deref_nth _ Hm). exact Hc.
+    - assert (Hm1' : has_more (pos_inc (pos sa)) = true) by (apply has_more_lt; rewrite pos_inc_buf, pos_inc_idx, Hm; lia).
+      rewrite (deref_nth _ Hm1'), pos_inc_buf, pos_inc_idx, Hm in Hn. replace (idx (pos sa) + 1) with (S (idx (pos sa))) by lia. exact Hn.
+  Qed.
+  Lemma fine_Eol_complete t_eos :
+    fine (@Eol_ U t_eos) (fun b s s' => b = false -> line_end_next (pos s) -> has_more (pos s) = false).
+  Proof.
+    intros s W. pose proof (fine_Eol_exact (U:=U) t_eos s W) as H. destruct (Eol_ t_eos s) as [[b s']| | |] eqn:Eq; simpl in *; auto.
+    destruct H as [Ex _]. split; [exact Ex|]. intros ->. apply (Eol__false_not_line_end _ _ _ W Eq).
+  Qed.
+
+  Lemma Eol_shebang (s : STu) :
+    wf_pos (pos s) -> tstate_at (pos s) = TS_normal -> has_more (pos s) = true -> deref (pos s) = 35%N ->
+    post (Eol A s) (fun b s' => ext s s' /\
+                                if b then tstate_at (pos s') = TS_normal else (tstate_at (pos s') = TS_line /\ has_more (pos s') = false)).
+  Proof.
+    intros W Tn Hm D. unfold Eol, with_depth. destruct (Nat.ltb max_parse_depth _); [exact I|].
+    set (s1 := mkState (pos s) (S (depth s)) (user s)).
+    assert (H : post ((SkipWS A false ;;; Eol_ false) s1)
+                     (fun b s2 => ext s1 s2 /\ if b then tstate_at (pos s2) = TS_normal else (tstate_at (pos s2) = TS_line /\ has_more (pos s2) = false))).
+    { apply post_bind. eapply post_mono; [apply (SkipWS_annotation s1 W Tn Hm D)|]. intros _ s2 (E2 & T2 & L2).
+      eapply post_mono; [apply (fine_conj _ _ _ (fine_Eol_exact (U:=U) false) (fine_Eol_complete false)), (ext_wf _ _ E2)|].
+      intros b s3 (E3 & Rex & Rco). split; [eapply ext_trans; eauto|]. destruct b.
+      - destruct Rex as [Hm2 [[Rp [Rc|[Rc _]]]|(Rp & Rc & Hm3 & Rc1)]].
+        + rewrite Rp, (tstate_inc _ Hm2), T2, Rc. reflexivity.
+        + exfalso. destruct L2 as [H|[H|(_ & H & _)]]; [congruence|rewrite H in Rc; discriminate|rewrite H in Rc; discriminate].
+        + rewrite Rp, (tstate_inc _ Hm3), (tstate_inc _ Hm2), T2, Rc, Rc1. reflexivity.
+      - subst s3. split; [exact T2|]. apply Rco; auto. }
+    destruct ((SkipWS A false ;;; Eol_ false) s1) as [[b s2]| | |]; simpl in *; auto.
+    destruct H as ((B & I' & W' & Dp & Us) & HP). split; [apply ext_intro; simpl; auto; rewrite Dp; reflexivity|]. exact HP.
+  Qed.
+End ShebangScanners.
+
 (* partial-correctness reading of `keeps_tb`: IF the run ends normally with "no match", the cursor is on a boundary of the same buffer *)
 Definition nfr (m : PM bool) : Prop :=
   forall s s', wf_pos (pos s) -> tb (pos s) -> m s = Ok (false, s') -> wf_pos (pos s') /\ tb (pos s') /\ buf (pos s') = buf (pos s).
@@ -882,5 +1007,78 @@ Section GrammarTrivia.
       apply has_more_false in Hm. pose proof (ext_len _ _ Ex2) as HL.
       assert (Hend : idx (pos sf) = List.length (buf (pos sf))) by lia.
       pose proof (tb_end_accept _ T2 Hend) as Ht. rewrite (ext_buf _ _ Ex2), B1 in Ht. exact Ht.
+  Qed.
+
+  (* ---------------------------------------------------------------- parse_internal on a buffer that begins with `#!` *)
+  Definition shebang_body (_ : unit) : PM (unit * bool) :=
+    p <- get_pos ;; if has_more p then e <- Eol A ;; if e then ret (tt, false) else inc ;;; ret (tt, true) else ret (tt, false).
+
+  Lemma shebang_loop_tb (s : ST) :
+    wf_pos (pos s) -> tstate_at (pos s) = TS_normal -> has_more (pos s) = true -> deref (pos s) = 35%N ->
+    post (loop shebang_body tt s) (fun _ s' => wf_pos (pos s') /\ tb (pos s') /\ buf (pos s') = buf (pos s)).
+  Proof.
+    intros W Tn Hm D.
+    apply (loop_ok2 shebang_body
+       (fun _ sx => wf_pos (pos sx) /\ buf (pos sx) = buf (pos s) /\
+                    (idx (pos sx) = idx (pos s) \/ (tstate_at (pos sx) = TS_line /\ has_more (pos sx) = false)))
+       (fun _ sx => wf_pos (pos sx) /\ tb (pos sx) /\ buf (pos sx) = buf (pos s))); [|auto].
+    intros [] sx (Wx & Bx & Inv). pose proof (ext_refl sx Wx) as E. unfold shebang_body. step_pos.
+    destruct Inv as [Ix|[Tl Hf]].
+    - destruct (same_place (pos s) (pos sx) Bx Ix) as (H1 & H2 & _ & _).
+      assert (Hmx : has_more (pos sx) = true) by congruence. assert (Dx : deref (pos sx) = 35%N) by congruence.
+      assert (Tx : tstate_at (pos sx) = TS_normal) by (rewrite (tstate_at_ext (pos s) (pos sx) Bx Ix); exact Tn).
+      rewrite Hmx.
+      apply post_bind. eapply post_mono; [apply (Eol_shebang A white_ok sx Wx Tx Hmx Dx)|]. intros b s1 [E1 R1]. destruct b.
+      + apply post_ret. cbn [fst snd]. split; [apply (ext_buf _ _ E1)|]. split; [discriminate|]. intros _.
+        split; [apply (ext_wf _ _ E1)|]. split; [left; exact R1|]. rewrite (ext_buf _ _ E1). exact Bx.
+      + destruct R1 as [T1 Hf1]. apply post_bind. unfold inc. cbn [post]. apply post_ret. cbn [fst snd pos].
+        assert (Hinc : pos_inc (pos s1) = pos s1) by (unfold pos_inc; rewrite Hf1; reflexivity). rewrite Hinc.
+        split; [apply (ext_buf _ _ E1)|]. split; [|discriminate]. intros _.
+        split; [split; [apply (ext_wf _ _ E1)|]; split; [rewrite (ext_buf _ _ E1); exact Bx|right; auto]|].
+        apply has_more_lt in Hmx. apply has_more_false in Hf1. pose proof (ext_len _ _ E1). rewrite (ext_buf _ _ E1) in Hf1. rewrite (ext_buf _ _ E1) in *. lia.
+    - rewrite Hf. apply post_ret. cbn [fst snd]. split; [reflexivity|]. split; [discriminate|]. intros _.
+      split; [exact Wx|]. split; [right; left; split; [exact Tl|left; exact Hf]|exact Bx].
+  Qed.
+
+  Lemma shebang_dichotomy (l : list N) : no_shebang l \/ exists r, l = 35%N :: 33%N :: r.
+  Proof.
+    unfold no_shebang.
+    repeat (match goal with |- context [match ?x with _ => _ end] => destruct x end; auto).
+    right. eexists. reflexivity.
+  Qed.
+
+  (* parse_internal: a Noop root means the whole buffer is trivia -- with or without a `#!` line *)
+  Lemma parse_internal_noop_all f (s s' : ST) n :
+    wf_pos (pos s) -> idx (pos s) = 0 ->
+    parse_internal_b A (P A T K G f) s = Ok (n, s') -> pn_kind n = KNoop ->
+    trivia_only (buf (pos s)) = true.
+  Proof.
+    intros W I0 E Hk.
+    assert (Tn : tstate_at (pos s) = TS_normal) by (unfold tstate_at; rewrite I0; reflexivity).
+    destruct (shebang_dichotomy (buf (pos s))) as [Hns|[r Hr]].
+    { apply (parse_internal_noop f s s' n W (or_introl Tn) Hns E Hk). }
+    unfold parse_internal_b in E.
+    apply bind_ok_inv in E. destruct E as (p0 & sa & Ea & E). cbv [get_pos] in Ea. inversion Ea; subst. clear Ea.
+    apply bind_ok_inv in E. destruct E as (u0 & sb & Eb & E).
+    rewrite Hr in Eb. cbv iota in Eb. change (loop shebang_body tt sa = Ok (u0, sb)) in Eb.
+    assert (Hm : has_more (pos sa) = true) by (apply has_more_lt; rewrite I0, Hr; simpl; lia).
+    assert (D : deref (pos sa) = 35%N) by (rewrite (deref_nth _ Hm), I0, Hr; reflexivity).
+    pose proof (shebang_loop_tb sa W Tn Hm D) as Hl. rewrite Eb in Hl. destruct Hl as (Wb & Tb & Bb).
+    apply bind_ok_inv in E. destruct E as (b & sc & Es & E). destruct b.
+    - exfalso. apply bind_ok_inv in E. destruct E as (u1 & sd & Ed & E).
+      apply bind_ok_inv in Ed. destruct Ed as (p1 & se & Ee & Ed). cbv [get_pos] in Ee. inversion Ee; subst. clear Ee.
+      destruct (has_more (pos se)); [discriminate|].
+      unfold build_match in Ed. cbv [bind get_stack get_pos get_fname] in Ed. cbn [Nat.ltb Nat.leb skipn firstn app] in Ed.
+      cbn [ctor_check] in Ed. cbv [set_stack] in Ed. inversion Ed; subst. clear Ed.
+      cbv [bind get_stack ret] in E. cbn [user stk] in E. inversion E; subst. discriminate.
+    - destruct (P_Statements_nfr f true _ _ Wb Tb Es) as (W1 & T1 & B1).
+      apply bind_ok_inv in E. destruct E as (u1 & sd & Ed & E).
+      apply bind_ok_inv in Ed. destruct Ed as (b2 & se & Ee & Ed).
+      pose proof (SkipWS_tb A white_ok true sc W1 T1) as Hw. rewrite Ee in Hw. destruct Hw as [Ex2 T2].
+      apply bind_ok_inv in Ed. destruct Ed as (p1 & sf & Ef & Ed). cbv [get_pos] in Ef. inversion Ef; subst. clear Ef.
+      destruct (has_more (pos sf)) eqn:Hmf; [discriminate|].
+      apply has_more_false in Hmf. pose proof (ext_len _ _ Ex2) as HL.
+      assert (Hend : idx (pos sf) = List.length (buf (pos sf))) by lia.
+      pose proof (tb_end_accept _ T2 Hend) as Ht. rewrite (ext_buf _ _ Ex2), B1, Bb in Ht. exact Ht.
   Qed.
 End GrammarTrivia.
